@@ -72,17 +72,17 @@ impl Sm9EncKey {
         k_append.extend_from_slice(&c1_bytes[1..65]);
         k_append.extend_from_slice(&w_bytes);
         k_append.extend_from_slice(idb);
-        let k = kdf(&k_append, (255 + 32) as usize);
+        let mlen = data.len() - (65 + 32);
+        let k = kdf(&k_append, mlen + 32);
         fn is_zero(x: &Vec<u8>) -> bool {
             x.iter().all(|&byte| byte == 0)
         }
 
         if !is_zero(&k) {
             let k = k.as_slice();
-            let mlen = data.len() - (65 + 32);
             let k1 = &k[0..mlen];
             let k2 = &k[mlen..];
-            let u = sm3_hmac(k2, c2, 32);
+            let u = sm9_mac(k2, c2);
             if !u.as_slice().eq(c3) {
                 return Err(Sm9Error::InvalidDigest);
             }
@@ -134,7 +134,7 @@ impl Sm9EncMasterKey {
             k_append.extend_from_slice(&cbuf[1..cbuf.len()]);
             k_append.extend_from_slice(gbuf);
             k_append.extend_from_slice(idb);
-            k = kdf(&k_append, (255 + 32) as usize);
+            k = kdf(&k_append, data.len() + 32);
             fn is_zero(x: &Vec<u8>) -> bool {
                 x.iter().all(|&byte| byte == 0)
             }
@@ -147,7 +147,7 @@ impl Sm9EncMasterKey {
         let k1 = &k[0..data.len()];
         let k2 = &k[data.len()..];
         let c2 = xor(k1, &data, data.len());
-        let c3 = sm3_hmac(k2, &c2, 32usize);
+        let c3 = sm9_mac(k2, &c2);
         let mut c: Vec<u8> = vec![];
         c.extend_from_slice(&c1.to_bytes_be());
         c.extend_from_slice(&c3);
@@ -192,8 +192,18 @@ impl Sm9EncMasterKey {
     }
 }
 
+/// MAC(K2, Z) = Hv(Z || K2) as defined by GM/T 0044.4
+fn sm9_mac(k2: &[u8], z: &[u8]) -> Vec<u8> {
+    let mut input = Vec::with_capacity(z.len() + k2.len());
+    input.extend_from_slice(z);
+    input.extend_from_slice(k2);
+    sm3_hash(&input).to_vec()
+}
+
+#[allow(dead_code)]
 const BLOCK_SIZE: usize = 64;
 
+#[allow(dead_code)]
 fn sm3_hmac(key: &[u8], message: &[u8], klen: usize) -> Vec<u8> {
     let mut ipad = [0x36u8; BLOCK_SIZE];
     let mut opad = [0x5cu8; BLOCK_SIZE];
